@@ -416,6 +416,31 @@ NA = {
     "C14": "bit-identity of whole runs depends on torch/BLAS/numpy RNG and "
     "process scheduling, none of which has a contract here; the function-"
     "level part (batch evaluation order/values) is proved under C10",
+    "C18": "the conversion functions are 3-10 line wrappers around numpy's "
+    "structured-dtype machinery (np.dtype from a name list, field "
+    "assignment, np.array of tuples with a dtype, "
+    "rfn.structured_to_unstructured, ndarray(shape, dtype, buffer, "
+    "strides).view): what the property asserts (names, order, values, "
+    "defaults, zero-copy aliasing, for ANY list of 1..20 names) is decided "
+    "by that machinery, for which no contract exists here; pyvc models a "
+    "structured array with a FIXED set of field names, so a contract "
+    "cannot even quantify over the names, and a proof over assumed numpy "
+    "contracts would only restate the assumptions. The registry part "
+    "(add / reset of extra fields) is history-dependent global state "
+    "outside any function under contract. A bounded / generative "
+    "technique fits this property; this family does not (DESIGN.md §5 "
+    "C18, §11.6).",
+    "C19": "read-back equality is decided by json.dump/json.load and h5py "
+    "(NaN / Infinity tokens, tuples vs lists, None inside lists, numpy "
+    "scalars in h5py, structured arrays as compound datasets): library "
+    "semantics with no contract here. nessai's own part is a five-branch "
+    "isinstance dispatch (NessaiJSONEncoder.default), a one-branch None "
+    "encoding and a recursive dict walk; contracts on those can only say "
+    "'np.integer -> int, np.floating -> float, ndarray -> tolist(), "
+    "otherwise str()' and would assume, not decide, that the library "
+    "round trip preserves each of those values. No obligation within "
+    "reach expresses 'the file reads back equal' (DESIGN.md §5 C19, "
+    "§11.6).",
 }
 WIP = "contracts not completed yet (work in progress; DESIGN.md §8 fallback rule)"
 
